@@ -125,3 +125,29 @@ __CPROVER_decreases(DIM + 1)
 #define NV_CONTRACT_comb_index NV_COMB_RO __CPROVER_ensures(__CPROVER_return_value == self->m_combination)
 #define NV_CONTRACT_comb_size  NV_COMB_RO __CPROVER_ensures(__CPROVER_return_value == self->m_combinations)
 #define NV_CONTRACT_comb_deref NV_COMB_RO __CPROVER_ensures(__CPROVER_return_value == &self->m_current)
+
+/* ---- the constructor ---------------------------------------------------------------------------------------------------- */
+int64_t nv_PROD;      /* ghost: the product of the counts -- NAMED, never computed on this back end (the arithmetic is on back end B) */
+/* tensor copy construction: same length, same cells (assumed contract of the dependency; C16 storage) */
+static struct nv_dig nv_dig_copy(const struct nv_dig* src) { return *src; }
+/* tensor_mem_t(size): `size` cells, not initialised */
+static struct nv_dig nv_dig_new(int64_t n)
+{
+  __CPROVER_assert(n >= 0, "tensor_mem_t(size): a non-negative size");
+  struct nv_dig t; t.n = n; t.va = nv_nondet_int64_t(); t.vb = nv_nondet_int64_t(); t.other = nv_nondet_int64_t(); return t;
+}
+/* tensor.zero(): every cell becomes 0 */
+static void nv_dig_zero(struct nv_dig* t) { t->va = 0; t->vb = 0; t->other = 0; }
+/* product(counts): std::accumulate(begin, end, 1, multiply) = the left fold of the lambda over the cells (assumed contract of the STL);
+ * the lambda is acc * val without overflow (back end B, comb_multiply); the fold is the product nv_PROD */
+static int64_t nv_comb_product(const struct nv_dig* counts) { return nv_PROD; }
+#define NV_CONTRACT_comb_ctor \
+__CPROVER_requires(__CPROVER_is_fresh(self, sizeof(*self)) && __CPROVER_is_fresh(counts, sizeof(*counts))) \
+/* what the callers guarantee (local_search: every count is 3): at least one dimension, every count >= 1, at most 2^62 combinations */ \
+__CPROVER_requires(1 <= counts->n && counts->n <= NV_MAXD && 0 <= nv_a && nv_a < counts->n && 0 <= nv_b && nv_b < counts->n) \
+__CPROVER_requires(NV_CELL(*counts, nv_a) >= 1 && NV_CELL(*counts, nv_b) >= 1 && 1 <= nv_PROD && nv_PROD <= NV_COMB_BOUND) \
+__CPROVER_assigns(__CPROVER_object_whole(self)) \
+__CPROVER_ensures(NV_D == counts->n && self->m_counts.n == NV_D && self->m_current.n == NV_D)        /* shape */ \
+__CPROVER_ensures(CNT(nv_a) == NV_CELL(*counts, nv_a) && CNT(nv_b) == NV_CELL(*counts, nv_b))          /* the counts are the given ones */ \
+__CPROVER_ensures(self->m_combinations == nv_PROD && self->m_combination == 0 && NV_COMB_VALID)        /* N = product, index 0, valid */ \
+__CPROVER_ensures(DIM == 0 && CUR(nv_a) == 0 && CUR(nv_b) == 0 && NV_COMB_INV_AT(nv_a) && NV_COMB_INV_AT(nv_b))   /* the all-zero numeral: rank 0 == index */
